@@ -231,6 +231,9 @@ CondPhase(t, fr, ph, L, next) ==
            THEN Leave(t, fr, Raise("ValueError", fr.c))       \* coroutine object on a sync callable
          ELSE IF r.v = 3
            THEN Leave(t, fr, Raise("ValueErrorC", fr.c))      \* truth test of the result failed (chained)
+         ELSE IF r.v = 5 /\ FN(fr.f).async /\ ~SwFutureNotAwaited
+           THEN \* an awaitable (not a coroutine) whose awaiting raises: that very exception surfaces
+                Leave(t, fr, Raise("Exception", 900 + fr.c))
          ELSE IF r.v = 4 /\ ~SwFutureNotAwaited /\ ~TruthArg(fr.c, fr.a)
            THEN Goto(t, [fr EXCEPT !.sub = "err"])              \* an awaitable result is awaited, then judged
          ELSE IF r.v # 0
@@ -448,6 +451,7 @@ Produce(fr) ==
          IF CON(fr.f).rv = "coro" /\ ~FN(fr.g).async THEN Ret(2) ELSE
          IF CON(fr.f).rv = "badbool" THEN Ret(3) ELSE
          IF CON(fr.f).rv = "future" THEN Ret(4) ELSE
+         IF CON(fr.f).rv = "futureraise" THEN Ret(5) ELSE
          IF fr.sub = "inv" THEN Ret(IF TruthSt(fr.f, ost[fr.o]) THEN 1 ELSE 0)
          ELSE Ret(IF TruthArg(fr.f, fr.a) THEN 1 ELSE 0)
     [] fr.u = "errf" -> Ret(IF CON(fr.f).err = "factory" THEN 1 ELSE 0)
